@@ -725,18 +725,21 @@ def run_bounded(ctx):
     if on("C01.lens.empty_dim"):
         ctx.bounded("C01.lens.empty_dim", check_empty_dim, cases_empty_dim(ctx),
                     bound="time dimension 0: _lens_from_eos on (0,N) N=0..3 and 3 layouts; edit_distance and prefix_edit_distances with eos set and R=0 or H=0, "
-                          "the other length over %s, every configuration of post_final/post_prefix" % _grid_text(ctx),
+                          "the other length over %s, every configuration of post_final/post_prefix (prefix with exclude_last on H=0 is enumerated by C01.sm.post_prefix); "
+                          "3 named regression cases of fix 22f6e22" % _grid_text(ctx),
                     text="returns (does not raise) on an empty time dimension with eos set, and the result equals the spec", chunk=16,
                     nontrivial=lambda c: True, functions=FUNCS_SM)
     if on("C01.sm.post_final"):
         ctx.bounded("C01.sm.post_final", check_spec, cases_spec(ctx, "ed"),
                     bound="every pair of columns, %s, one batch per (alphabet, R, H) (<= 8192 pairs per call); eos in {None, min, max of alphabet, absent 5, -1}; %s; "
-                          "10 cost triples incl. uniform, NIST (3,3,4), non-dyadic%s" % (_grid_text(ctx), flags, "" if q else "; 3000 seeded random ragged batches (N<=16, lengths<=10, garbage +-1e9, log-uniform costs)"),
+                          "10 cost triples incl. uniform, NIST (3,3,4), non-dyadic; "
+                          "batches with eos set and R=0 or H=0 are enumerated by C01.lens.empty_dim%s" % (_grid_text(ctx), flags, "" if q else "; 3000 seeded random ragged batches (N<=16, lengths<=10, garbage +-1e9, log-uniform costs)"),
                     text="edit_distance[n] = exact Wagner-Fischer cost of (ref_n -> hyp_n) (/ |ref_n| if norm), tolerance 1e-5*(max cost+|x|); shape (N,)",
                     nontrivial=lambda c: _nontrivial(c), chunk=8, functions=FUNCS_SM + ["_string.edit_distance"])
     if on("C01.sm.post_prefix"):
         ctx.bounded("C01.sm.post_prefix", check_spec, cases_spec(ctx, "prefix"),
-                    bound="as C01.sm.post_final, times exclude_last in {False, True}; padding in {-100, 7, -1}",
+                    bound="as C01.sm.post_final, times exclude_last in {False, True} (H=0 with exclude_last, the (0,N) result, for every eos setting here); padding in {-100, 7, -1}; "
+                          "2 named regression cases of fix 7c520c6",
                     text="prefix_edit_distances[j,n] = exact cost of (ref_n -> hyp_n[:j]) for j <= |hyp_n| (< if exclude_last), exactly `padding` beyond; shape (H+1-excl, N), transposed iff batch_first",
                     nontrivial=lambda c: _nontrivial(c), chunk=8, functions=FUNCS_SM + ["_string.prefix_edit_distances"])
     if on("C01.sm.uniform_shortcut"):
@@ -765,7 +768,7 @@ def run_bounded(ctx):
                "norm with an empty reference (x/0) is not defined by the property: those entries are unconstrained (their padding positions are still checked)",
                "exclude_last omits each pair's own full prefix: position |hyp_n| holds padding",
                "tokens are int64 tensors on the CPU; eager mode (no tracing / TorchScript of _string_matching)")
-    ctx.not_applicable.append("C01: alphabets, lengths and cost triples beyond the enumerated grids and random draws; CUDA; scripted/traced variants")
+    ctx.not_applicable.append("C01 on CUDA tensors and under TorchScript/tracing of _string_matching (only eager CPU execution is run)")
 
 
 def _nontrivial(case):
